@@ -20,10 +20,22 @@ def check_markers(moddir, flags=None, known=None):
             if not f.endswith(".go"):
                 continue
             rel = os.path.relpath(os.path.join(root, f), moddir)
-            touched = set()
-            for dg in r["diags"] or []:
-                touched |= wt.lines_mentioned(dg, rel)
-            for i, line in enumerate(open(os.path.join(root, f)).read().splitlines(), 1):
+            src_lines = open(os.path.join(root, f), newline="").read().replace("\r\n", "\n").split("\n")
+            # reported positions are //line-adjusted: map every physical line to the (file, line) it is reported as
+            adj, cur = {}, None
+            for i, line in enumerate(src_lines, 1):
+                adj[i] = (rel, i) if cur is None else (cur[0], cur[1] + (i - cur[2]))
+                md = re.match(r"^//line (\S+?):(\d+)(?::\d+)?\s*$", line)
+                if md:
+                    cur = (os.path.normpath(os.path.join(os.path.dirname(rel), md.group(1))), int(md.group(2)), i + 1)
+            touched_by = {}
+            for fn in {a[0] for a in adj.values()}:
+                t = set()
+                for dg in r["diags"] or []:
+                    t |= wt.lines_mentioned(dg, fn)
+                touched_by[fn] = t
+            touched = {i for i, (fn, ln) in adj.items() if ln in touched_by[fn]}
+            for i, line in enumerate(src_lines, 1):
                 mk = re.search(r"//KNOWN:([\w-]+)", line)
                 if mk:
                     n += 1
@@ -55,3 +67,36 @@ def check_markers_textured(moddir, scratch, flags=None, kinds=None):
         finally:
             shutil.rmtree(d, ignore_errors=True)
     return runs, bad
+
+
+def corpus_modules(ctx, sub, what, flagsets=(None,), textures=True, known=None):
+    """marker check (plain and textured) of every module under corpus/<sub> (a directory with a go.mod; the corpus
+    directory itself if it has one): one obligation, violations with the failing marker as the input"""
+    import shutil
+    from . import common
+    base = os.path.join(common.VERIF, "corpus", sub)
+    mods = [base] if os.path.exists(os.path.join(base, "go.mod")) else []
+    mods += sorted(os.path.join(base, d) for d in os.listdir(base) if os.path.exists(os.path.join(base, d, "go.mod")))
+    total, runs, bad = 0, 0, []
+    scratch = ctx.scratch()
+    try:
+        for m in mods:
+            own = None
+            if os.path.exists(os.path.join(m, "FLAGS.json")):
+                import json
+                own = json.load(open(os.path.join(m, "FLAGS.json")))
+            for flags in ([own] if own is not None else flagsets):
+                n, b = check_markers(m, flags=flags, known=known)
+                total += n
+                runs += 1
+                bad += ["%s%s: %s" % (os.path.relpath(m, common.VERIF), " flags %r" % flags if flags else "", x) for x in b]
+                if textures:
+                    r, b = check_markers_textured(m, scratch, flags=flags)
+                    runs += r
+                    bad += ["%s%s: %s" % (os.path.relpath(m, common.VERIF), " flags %r" % flags if flags else "", x) for x in b]
+    finally:
+        shutil.rmtree(scratch, ignore_errors=True)
+    ctx.obligation("whole tool on corpus/%s (%s): %d marked lines in %d module(s), %d runs incl. the textures blank-first-line / %%-in-file-name / //line directive / CRLF: every //REPORT line is reported, no //SILENT line is" % (sub, what, total, len(mods), runs), total > 0 and not bad)
+    for b in bad[:3]:
+        ctx.violation("corpus-" + sub.replace("/", "-"), "%s fails on the real tool: %s\nreplay: bin/harness analyze -dir <module> (textures: checks/texture.py)\n" % (ctx.pid, b))
+    return total, bad
